@@ -310,6 +310,10 @@ var specialNames = []string{"null", "Null", "true", "false", "yes", "no", "on", 
 	// a separator-and-comment-character sequence inside a name (only the last colon of a line separates)
 	"tea: #2 blend", "a: #", "mix: # x: y", "b:#c", "soup: ; thick"}
 
+// SpecialName draws one of the names that a YAML reader, a shell, a number parser or a careless line splitter
+// would take for something else.
+func SpecialName(r *rand.Rand) string { return specialNames[r.Intn(len(specialNames))] }
+
 // Names returns n distinct names.
 func Names(r *rand.Rand, n int, o NameOpts) []string {
 	seen := map[string]bool{}
